@@ -291,6 +291,23 @@ def body(ctx):
                 ctx.violation(v, dict(kind='schedule', mode=mode, schedule=res[i][1]['schedule']))
             elif v in ('ok', 'C06.Stuck.K1'):
                 ctx.count(traces=1)
+    # a failed OPEN overlapped by another thread's open: one thread's first write fails ("nothing was sent") while the other
+    # already holds its id; the first thread then opens twice more while the other stream may still be live
+    for mode in ('sync', 'async'):
+        prog, rep = {'t1': ['shell'], 't2': ['shell']}, {'t1': [[1]], 't2': [[1, 2]]}
+        res = []
+        for k in range(60 if ctx.quick else 1500):
+            res += tour.explore(mode, prog, rep, 1, random.Random(ctx.seed * 977 + k), write_yield=True, reps={'t1': 3, 't2': 1},
+                                write_fault=('t1', 1))     # the header of t1's first OPEN is not sent at all: the byte stream stays well-framed
+        v2, r2 = tlc.validate_traces('TraceEnv', [t for t, _ in res])
+        ctx.add_tlc(r2, 'TraceEnv over %d %s schedules with a failed write overlapped by another open' % (len(res), mode))
+        for (i, l, v) in v2:
+            if v.startswith('C14.'):
+                ctx.violation(v, dict(kind='schedule-with-write-fault', mode=mode, schedule=res[i][1]['schedule'], opens=[wire.unlimbs(e['a0']) for e in res[i][0] if e['ev'] == 'tx' and e['cmd'] == 'OPEN']))
+            else:
+                ctx.count(traces=1)
+                ctx.extra.setdefault('verdicts_of_write_fault_schedules', {}).setdefault(v, 0)
+                ctx.extra['verdicts_of_write_fault_schedules'][v] += 1
     # ids after failed opens: an operation that times out must not make a later one reuse a live id
     from . import c01
     from .. import scen
